@@ -141,8 +141,9 @@ Definition c19_verdict (k : c19_case) : verdict :=
       let obs := xlines robs in
       let py := xlines rpy in
       let agree := lines_eqb (iter_splitlines gen_breaks t) obs
-                   (* Spec validation: where Python's str.splitlines has no further breaks it is the Spec's *)
-                   && (existsb is_sep_ctl t || lines_eqb (splitlines is_break t) py) in
+                   (* Spec validation: the reference [splitlines] with CPython's full break table IS str.splitlines
+                      (on texts without \x1c-\x1e that is the Spec's splitlines: Props.C19_splitlines_is_python) *)
+                   && lines_eqb (splitlines is_py_break t) py in
       let holds := lines_eqb obs (iter_splitlines_spec t) in
       (agree, holds, false)
   | CIndent rt rm rn robs =>
